@@ -980,24 +980,32 @@ def read_types(text):
     lines = region.split("\n")
     items, attrs, i = [], [], 0
 
-    def body(start_line_rest, i, closing_semicolon):
+    def body(start_line_rest, i, is_struct):
         """start_line_rest: text after the name on the declaration line."""
         r = start_line_rest
-        if r in (";", "", ","):
+        # Rust item syntax: `struct N;` `struct N {..}` `struct N(..);` — variants: `V,` `V {..},` `V(..),`
+        if r == (";" if is_struct else ","):
             return ("unit",), i
         if r == " {":
             fields = []
             i += 1
-            while lines[i].strip() not in ("}", "},"):
+            close = "}" if is_struct else "},"
+            while lines[i].strip() != close:
                 m = re.fullmatch(r"\s+(pub )?(\w+): (.*),", lines[i])
+                if m is None:
+                    raise ValueError("named fieldset not closed by %r: %r" % (close, lines[i]))
                 fields.append((bool(m.group(1)), m.group(2), m.group(3)))
                 i += 1
             return ("named", fields), i
         if r == "(":
             fields = []
             i += 1
-            while lines[i].strip() not in (");", "),", ")"):
-                fields.append(re.fullmatch(r"\s+(.*),", lines[i]).group(1))
+            close = ");" if is_struct else "),"
+            while lines[i].strip() != close:
+                m = re.fullmatch(r"\s+(.*),", lines[i])
+                if m is None or lines[i].strip() in (")", ");", "),") or lines[i].startswith("pub ") or lines[i].startswith("#"):
+                    raise ValueError("tuple fieldset not closed by %r: %r" % (close, lines[i]))
+                fields.append(m.group(1))
                 i += 1
             return ("tuple", fields), i
         raise ValueError("unreadable body: " + repr(r))
